@@ -116,9 +116,9 @@ func (c *FnCtx) exec(st *State, s ast.Stmt) {
 	case *ast.GoStmt:
 		c.unsup(x, "go statement (concurrency is outside the verified subset)")
 	case *ast.SendStmt:
-		c.unsup(x, "channel send")
+		c.execSend(st, x)
 	case *ast.SelectStmt:
-		c.unsup(x, "select statement")
+		c.execSelect(st, x)
 	default:
 		c.unsup(s, "statement %T", s)
 	}
@@ -160,7 +160,11 @@ func (c *FnCtx) execAssign(st *State, x *ast.AssignStmt) {
 			v, ok := c.mapGet(env, base, idx, mt)
 			vals = []Val{v, boolVal(ok)}
 		case *ast.UnaryExpr:
-			c.unsup(x, "comma-ok channel receive")
+			if r.Op != token.ARROW {
+				c.unsup(x, "comma-ok form")
+			}
+			v, ok := c.chanRecv(st, c.eval(env, r.X), x)
+			vals = []Val{v, boolVal(ok)}
 		default:
 			v := c.eval(env, x.Rhs[0])
 			if len(v.Tuple) != len(x.Lhs) {
@@ -576,8 +580,12 @@ func (c *FnCtx) execDefer(st *State, x *ast.DeferStmt) {
 	env := &Env{st: st}
 	d := deferRec{call: x.Call, pkg: c.pkg()}
 	if fl, ok := unparen(x.Call.Fun).(*ast.FuncLit); ok {
-		_ = fl
-		c.unsup(x, "deferred closure")
+		if len(c.frames) > 1 {
+			c.unsup(x, "deferred closure inside an inlined callee")
+		}
+		d.lit = fl
+		c.frame().defers = append(c.frame().defers, d)
+		return
 	}
 	for _, a := range x.Call.Args {
 		d.args = append(d.args, c.eval(env, a))
